@@ -501,7 +501,7 @@ def noise_pinned_pairs(tier, seed):
     return res
 
 
-@component(("C01", "C02", "C06", "C09", "C10", "C11", "C13", "C15", "C19", "C20"), "numbers.printing", "bounded")
+@component(("C01", "C02", "C06", "C07", "C09", "C10", "C11", "C13", "C15", "C19", "C20"), "numbers.printing", "bounded")
 def numbers_printing(tier, seed):
     """svg_meta.ntos is the one function every serialised number goes through (path data, transforms, gradient coordinates, shape
     fields): whatever a rewrite computes, the document only keeps what ntos writes."""
